@@ -446,7 +446,7 @@ def working_ops(rng, tcfg, plan, up):
     """a short stream: a few input blocks, then drain"""
     n = 3000 if up <= 4 else max(8, min(2000, int(40000 / up)))
     if up < 1e-3:
-        n = 20000
+        n = int(2.6 / up) if 20000 <= 2.6 / up <= 3e6 else 20000      # where affordable: a frame owed at end-of-input, round(N*up) > floor(N*up)
     sizes = [1, 7, 64, 500, 4096]
     ops = [cr.create_line(tcfg), "limit %d" % n]
     for _ in range(3):
@@ -557,11 +557,10 @@ def stage_working(ctx, units, nmax, known):
                 if "err=-" not in h:
                     bad = "error recorded during a plain stream: %s" % h[:200]
         if bad:
-            hits = [h for h in pre + cr.classify_known(tr.plan, tcfg) if (h in known and site_ok(h, tr.rc, tr.err)) or h in ("F1", "F3")]
+            # F1 and F3 are repaired in /repo: a plan that matches their signature again is a violation like any other
+            hits = [h for h in pre + cr.classify_known(tr.plan, tcfg) if (h in known and site_ok(h, tr.rc, tr.err))]
             if hits and hits[0] in known:
                 ctx.known(hits[0], known[hits[0]]["what"]); ctx.hist("known_hits", hits[0])
-            elif hits:
-                ctx.count("other_areas_known_hits")
             else:
                 rep["what"] = bad
                 violation(ctx, "working", "C09 accepted => working fails on the real code: %s (%s %s)" % (bad, cr.create_line(tcfg), env), rep)
@@ -593,11 +592,35 @@ def gen_threshold_cfg(rng):
     return cfg, ({"SOXR_USE_SIMD": "0"} if rng.chance(.3) else {})
 
 
+def corner_cfgs(rng, quick):
+    """Corners of the planner that a draw from the verdict product space hardly ever lands on (round 7 of the seeded changes:
+    `C09-cubic-input-size-equals-pre-post`, `C09-fdomain-phase-pad-off-by-one`): (i) SOXR_QQ at decimation factors around and far
+    beyond the cubic stage's default input size (8192: from there on `input_size` is decided by `pre_post`), stream lengths that leave
+    a frame owed at end-of-input; (ii) every power-of-two up-sampling post stage (factors 8 ... 512 and beyond) x non-linear phase
+    responses, whose transformed filter has to be padded to a multiple of L (F1 repair) - for both, the exported plan must be PipeWF
+    and a short stream must run to its end."""
+    jobs = []
+    qq = [8191, 8192, 8193, 10000, 16384, 65537, 1000003] if quick else [4096, 8191, 8192, 8193, 9000, 10000, 16384, 20011, 65536, 65537, 1000003, 2 ** 24 + 1]
+    for r in qq:
+        jobs.append(({"ir": str(r), "or": "1", "recipe": 0}, {}))
+        jobs.append(({"ir": str(r) + ".5", "or": "1", "recipe": 0}, {}))
+    ups = [8, 16, 32, 64, 128, 256, 512, 1024] if quick else [8, 16, 24, 32, 48, 64, 96, 128, 160, 256, 320, 512, 1024, 2048]
+    phases = [0, 10, 25, 33.3, 66, 75, 90, 100]
+    recipes = [1, 3, 4, 6]        # LQ, (16-bit) MQ, HQ, VHQ
+    for k, up in enumerate(ups):
+        for j, ph in enumerate(phases):
+            if quick and (j + k) % 2:
+                continue
+            rec = recipes[(j + k) % len(recipes)] if quick else rng.choice(recipes)
+            jobs.append(({"ir": "1", "or": str(up), "recipe": rec, "phase": ph}, ({"SOXR_USE_SIMD": "0"} if (j + 2 * k) % 5 == 0 else {})))
+    return jobs
+
+
 def stage_thresholds(ctx, n, known):
     """accepted => working at the planner's size decisions (see gen_threshold_cfg): created under ASan/UBSan with asserts on, exported plan
     replayed through the Lean count model, a short stream run to its end under a watchdog, total compared."""
     exe = common.build_harness("crtrace", ["cr/trace.c"], "san")
-    jobs = [gen_threshold_cfg(ctx.rng) for _ in range(n)]
+    jobs = corner_cfgs(ctx.rng, ctx.quick) + [gen_threshold_cfg(ctx.rng) for _ in range(n)]
 
     def work(j):
         cfg, env = j
@@ -607,7 +630,7 @@ def stage_thresholds(ctx, n, known):
         if cl.plan_load(tr0.plan)[0] >= 2.0 ** 22:
             return cfg, env, "skip-memory", tr0, None
         up = float(cfg["or"]) / float(cfg["ir"])
-        ops, nfr = working_ops(common.Rng(int(cfg["ir"]) * 7919 + int(cfg["or"])), cfg, tr0.plan, up)
+        ops, nfr = working_ops(common.Rng(int(float(cfg["ir"])) * 7919 + int(float(cfg["or"]))), cfg, tr0.plan, up)
         return cfg, env, "ran", cr.run_trace(exe, ops, env, timeout=300), (ops, nfr)
 
     for cfg, env, how, tr, job in cr.pmap(work, jobs):
